@@ -756,3 +756,155 @@ def check_operator_spacing_tokens(ctx, rid):
         ctx.ob(rid, f'operator-spacing:rule={rx.canon_pattern(pat)}', f'{kwloc}:{line}', 'an operator followed by a blank is still that operator', False,
                f'rule {pat!r} takes over for {[i[0] for i in items][:6]}: e.g. `1{items[0][0]}2` is formatted to `1 {items[0][0]} 2`, where '
                f'`{items[0][0]} 2` lexes as {items[0][1]} -- the operator and everything behind it on the line become another token')
+
+
+def check_serializer_sim(ctx, rid):
+    """Every formatted statement passes through SerializerUnicode.process last.  Interpreted on sample texts: it may normalise line
+    ends (\\r\\n, \\r -> \\n) and strip blanks at line ends, and nothing else -- in particular the other characters str.splitlines()
+    treats as line boundaries (VT, FF, FS, GS, RS, NEL, LS, PS) are ordinary characters of a comment or name."""
+    from . import miniev as ME
+    repo = ctx.repo
+    f = repo.funcs.get('sqlparse.filters.others.SerializerUnicode.process')
+    ctx.need(f is not None, 'SerializerUnicode.process not found')
+    loc = f'{f.mod.relpath}:{f.node.lineno}'
+    samples = ['select a from t', 'a\nb', 'a\r\nb', 'a\rb', 'a  \nb', "'a\nb' c", '"a\n b"', "x 'it''s' y\nz", '', '\n', 'a\n']
+    for ch in ('\x0b', '\x0c', '\x1c', '\x1d', '\x1e', '\x85', ' ', ' '):
+        samples += [f'select a -- x{ch}y\nfrom t', f'/* a{ch}b */ c', f'a{ch}b', f"a{ch}b 'q'"]
+    bad = []
+    params = [p_ for p_ in f.params if p_ not in ('self', 'cls')]
+    for text in samples:
+        ev = ME.Evaluator(ctx, f.mod, f.cls)
+        ev.effects = True
+        try:
+            got = ME.run_function(ev, f.node, {params[0]: text}, max_steps=2000)
+        except (ME.Unsupported, ME.Unknown) as e:
+            ctx.ob(rid, 'serializer:simulation', loc, 'the serializer is evaluable on sample texts', None, f'{text!r}: {e}')
+            return
+        except ME.Crash as e:
+            bad.append(f'{text!r}: {e}')
+            continue
+        # model: line ends outside '...' / "..." become \n, blanks in front of a line end or the end go
+        import re as _re
+        parts = _re.split(r"""("(?:[^"\\]|\\.)*"|'(?:[^'\\]|\\.)*')""", text)
+        want_lines = ['']
+        for i, p_ in enumerate(parts):
+            if i % 2:
+                want_lines[-1] += p_
+            else:
+                segs = _re.sub('\r\n|\r', '\n', p_).split('\n')
+                want_lines[-1] += segs[0]
+                for sg in segs[1:]:
+                    want_lines.append(sg)
+        want = '\n'.join(l_.rstrip() for l_ in want_lines)
+        if got != want:
+            bad.append(f'{text!r} -> {got!r}, expected {want!r}')
+    ctx.ob(rid, 'serializer:simulation', loc,
+           f'the serializer only turns unquoted \\\\r\\\\n / \\\\r into \\\\n and strips blanks at line ends ({len(samples)} sample texts, among them the eight other '
+           'line-boundary characters of str.splitlines inside comments and names)', not bad, f'{len(bad)} sample(s) differ, e.g. {bad[:2]}')
+
+
+def check_retained_statement(ctx, rid):
+    """A postprocess filter may replace `stmt.tokens` by a one-shot generator (the output_format filters do).  A statement filter that
+    keeps a reference to the statement it has processed (`self._last_stmt = stmt`) sees that object again while it handles the
+    next statement -- after the postprocess filters ran on it.  Of such a retained statement only str() is safe: its `.tokens`
+    may be an exhausted generator, so subscripts, len(), slicing or truthiness of it raise TypeError or lie."""
+    repo = ctx.repo
+    # 1. who turns .tokens into a generator
+    gens = []
+    for f in repo.funcs.values():
+        if not f.mod.name.startswith('sqlparse.filters'):
+            continue
+        for n in own_nodes(f.node):
+            if isinstance(n, ast.Assign) and any(isinstance(t, ast.Attribute) and t.attr == 'tokens' for t in n.targets) and isinstance(n.value, ast.Call):
+                callee = None
+                if isinstance(n.value.func, ast.Attribute) and is_name(n.value.func.value, 'self') and f.cls is not None:
+                    callee = repo.lookup_method(f.cls, n.value.func.attr)
+                    subs = [repo.lookup_method(c, n.value.func.attr) for c in repo.subclasses(f.cls)]
+                    cands = [c for c in [callee] + subs if c is not None]
+                    if any(c.is_generator() for c in cands):
+                        gens.append(f'{f.short}:{n.lineno}')
+    ctx.info['tokens_become_generator_at'] = gens
+    n_ob = 0
+    for c in repo.classes.values():
+        if not c.mod.name.startswith('sqlparse.filters'):
+            continue
+        pr = c.methods.get('process')
+        if pr is None:
+            continue
+        stmtp = next((p for p in pr.params if p not in ('self', 'cls')), None)
+        kept = {t.attr for n in own_nodes(pr.node) if isinstance(n, ast.Assign) and is_name(n.value, stmtp) for t in n.targets
+                if isinstance(t, ast.Attribute) and is_name(t.value, 'self')}
+        for attr in sorted(kept):
+            for m in c.methods.values():
+                amap = alias_map(m.node)
+                for n in own_nodes(m.node):
+                    if isinstance(n, ast.Attribute) and n.attr == 'tokens' and canon_text(src(n.value), amap) == f'self.{attr}':
+                        n_ob += 1
+                        ctx.ob(rid, f'retained:{c.name}.{attr}:{m.name}:{n.lineno - m.node.lineno}', f'{m.mod.relpath}:{n.lineno}',
+                               f'{c.name} keeps the previous statement in self.{attr}; only str() of it is used later', not gens,
+                               f'`{src(n)}` reads the token list of the previous statement, which {gens[0] if gens else "?"} has replaced by a generator that is '
+                               f'exhausted by then (output_format=python/php): subscript / len() / slicing of it raises TypeError, truthiness is always True')
+    ctx.ob(rid, 'retained:inventory', 'sqlparse/filters', f'{n_ob} use(s) of the token list of a retained statement', True)
+
+
+def check_fixed_tables(ctx, rid, reach=None):
+    """A module- or class-level table of fixed length (a tuple/list/str literal, `tuple(f(i) for i in range(N))`, ...) that is
+    indexed with a run-time quantity (an indentation width, a nesting depth, a token count) needs a bound on that index: nesting
+    depth and widths grow with the input, and an IndexError is not a SQLParseError."""
+    repo = ctx.repo
+    tables = {}
+    for mod in repo.mods.values() if hasattr(repo, 'mods') else []:
+        pass
+    for m in {f.mod for f in repo.funcs.values()}:
+        for name, v in getattr(m, 'assigns', {}).items():
+            if _fixed_len(v):
+                tables[(m.name, name)] = v
+    n_ob = 0
+    for f in repo.funcs.values():
+        if reach is not None and f.qname not in reach:
+            continue
+        gd = None
+        for n in own_nodes(f.node):
+            if not isinstance(n, ast.Subscript) or isinstance(n.slice, (ast.Slice, ast.Constant)) or (isinstance(n.slice, ast.UnaryOp) and isinstance(n.slice.operand, ast.Constant)):
+                continue
+            base = n.value
+            while isinstance(base, ast.Subscript):
+                base = base.value
+            if not (isinstance(base, ast.Name) and (f.mod.name, base.id) in tables):
+                continue
+            if base is n.value and isinstance(tables[(f.mod.name, base.id)], (ast.Dict, ast.DictComp)):
+                continue        # the dictionary level: a key lookup, not a position
+            idx = n.slice
+            if gd is None:
+                gd = Guards(f.node)
+            facts = [e for e, p in gd.facts(n) if e != '|']
+            names = {x.id for x in ast.walk(idx) if isinstance(x, ast.Name)}
+            bounded = any(('len(' in e or '<' in e or '>' in e) and any(nm in e for nm in names) for e in facts) or isinstance(idx, ast.BinOp) and isinstance(idx.op, ast.Mod)
+            # the index variable clamped where it is defined: min(..., K)
+            for nm in names:
+                for d in local_defs(f.node).get(nm, []):
+                    if isinstance(d, ast.AST) and any(isinstance(c, ast.Call) and is_name(c.func, 'min') for c in ast.walk(d)):
+                        bounded = True
+            n_ob += 1
+            ctx.ob(rid, f'fixed-table:{f.short}:{src(n)}', f'{f.mod.relpath}:{n.lineno}',
+                   f'`{src(n)}` indexes the fixed-length table {base.id} with a bounded position', bounded,
+                   f'index `{src(idx)}` has no upper bound (guards: {facts}): when the quantity outgrows the table (deep nesting, wide indentation) IndexError escapes')
+    ctx.ob(rid, 'fixed-table:inventory', 'sqlparse', f'{len(tables)} fixed-length module-level table(s), {n_ob} run-time indexed use(s)', True)
+
+
+def _fixed_len(v):
+    if isinstance(v, (ast.Tuple, ast.List)) or (isinstance(v, ast.Constant) and isinstance(v.value, str)):
+        return True
+    if isinstance(v, ast.Call) and is_name(v.func, 'tuple', 'list') and v.args and isinstance(v.args[0], (ast.GeneratorExp, ast.ListComp)):
+        return _range_comp(v.args[0])
+    if isinstance(v, (ast.ListComp,)):
+        return _range_comp(v)
+    if isinstance(v, ast.DictComp):
+        return _fixed_len(v.value)
+    if isinstance(v, ast.Dict):
+        return any(_fixed_len(x) for x in v.values)
+    return False
+
+
+def _range_comp(c):
+    return any(isinstance(g.iter, ast.Call) and is_name(g.iter.func, 'range') for g in c.generators)
